@@ -126,3 +126,31 @@ package gostatsd
 //@   ensures  !old(hasG(mm, m.Name, tagsKey)) ==> mm.Gauges[m.Name][tagsKey].Value == m.Value && mm.Gauges[m.Name][tagsKey].Timestamp == m.Timestamp && mm.Gauges[m.Name][tagsKey].Source == m.Source && tagsCopied(mm.Gauges[m.Name][tagsKey].Tags, m.Tags)
 //@   ensures  forall n string, t string :: (n != m.Name || t != tagsKey) ==> hasG(mm, n, t) == old(hasG(mm, n, t)) && (hasG(mm, n, t) ==> mm.Gauges[n][t] == old(mm.Gauges[n][t]))
 //@   modifies mm.Gauges[*], mm.Gauges[m.Name][*]
+
+//@ func (*MetricMap).receiveTimer
+//@   floats real
+//@   requires mm != nil && m != nil && wfdTimers(mm.Timers)
+//@   ensures  wfdTimers(mm.Timers) && mm.Timers == old(mm.Timers)
+//@   ensures  hasT(mm, m.Name, tagsKey)
+//@   ensures  old(hasT(mm, m.Name, tagsKey)) ==> len(mm.Timers[m.Name][tagsKey].Values) == old(len(mm.Timers[m.Name][tagsKey].Values)) + 1
+//@   ensures  old(hasT(mm, m.Name, tagsKey)) ==> forall i int :: 0 <= i && i < old(len(mm.Timers[m.Name][tagsKey].Values)) ==> mm.Timers[m.Name][tagsKey].Values[i] == old(mm.Timers[m.Name][tagsKey].Values[i])
+//@   ensures  old(hasT(mm, m.Name, tagsKey)) ==> mm.Timers[m.Name][tagsKey].Values[old(len(mm.Timers[m.Name][tagsKey].Values))] == m.Value
+//@   ensures  old(hasT(mm, m.Name, tagsKey)) ==> mm.Timers[m.Name][tagsKey].SampledCount == old(mm.Timers[m.Name][tagsKey].SampledCount) + 1.0 / m.Rate
+//@   ensures  old(hasT(mm, m.Name, tagsKey)) ==> mm.Timers[m.Name][tagsKey].Timestamp == imax(old(mm.Timers[m.Name][tagsKey].Timestamp), m.Timestamp)
+//@   ensures  old(hasT(mm, m.Name, tagsKey)) ==> mm.Timers[m.Name][tagsKey].Source == old(mm.Timers[m.Name][tagsKey].Source) && mm.Timers[m.Name][tagsKey].Tags == old(mm.Timers[m.Name][tagsKey].Tags)
+//@   ensures  !old(hasT(mm, m.Name, tagsKey)) ==> len(mm.Timers[m.Name][tagsKey].Values) == 1 && mm.Timers[m.Name][tagsKey].Values[0] == m.Value && mm.Timers[m.Name][tagsKey].SampledCount == 1.0 / m.Rate
+//@   ensures  !old(hasT(mm, m.Name, tagsKey)) ==> mm.Timers[m.Name][tagsKey].Timestamp == m.Timestamp && mm.Timers[m.Name][tagsKey].Source == m.Source && tagsCopied(mm.Timers[m.Name][tagsKey].Tags, m.Tags)
+//@   ensures  forall n string, t string :: (n != m.Name || t != tagsKey) ==> hasT(mm, n, t) == old(hasT(mm, n, t)) && (hasT(mm, n, t) ==> mm.Timers[n][t] == old(mm.Timers[n][t]))
+//@   modifies mm.Timers[*], mm.Timers[m.Name][*], allElems(float64)
+
+//@ func (*MetricMap).receiveSet
+//@   requires mm != nil && m != nil && wfdSets(mm.Sets) && setsOK(mm)
+//@   ensures  wfdSets(mm.Sets) && mm.Sets == old(mm.Sets) && setsOK(mm)
+//@   ensures  hasS(mm, m.Name, tagsKey)
+//@   ensures  old(hasS(mm, m.Name, tagsKey)) ==> mm.Sets[m.Name][tagsKey].Values == old(mm.Sets[m.Name][tagsKey].Values)
+//@   ensures  old(hasS(mm, m.Name, tagsKey)) ==> forall x string :: (x in mm.Sets[m.Name][tagsKey].Values) == (old(x in mm.Sets[m.Name][tagsKey].Values) || x == m.StringValue)
+//@   ensures  old(hasS(mm, m.Name, tagsKey)) ==> mm.Sets[m.Name][tagsKey].Timestamp == imax(old(mm.Sets[m.Name][tagsKey].Timestamp), m.Timestamp)
+//@   ensures  !old(hasS(mm, m.Name, tagsKey)) ==> fresh(mm.Sets[m.Name][tagsKey].Values) && (forall x string :: (x in mm.Sets[m.Name][tagsKey].Values) == (x == m.StringValue))
+//@   ensures  !old(hasS(mm, m.Name, tagsKey)) ==> mm.Sets[m.Name][tagsKey].Timestamp == m.Timestamp && mm.Sets[m.Name][tagsKey].Source == m.Source && tagsCopied(mm.Sets[m.Name][tagsKey].Tags, m.Tags)
+//@   ensures  forall n string, t string :: (n != m.Name || t != tagsKey) ==> hasS(mm, n, t) == old(hasS(mm, n, t)) && (hasS(mm, n, t) ==> mm.Sets[n][t] == old(mm.Sets[n][t]))
+//@   modifies mm.Sets[*], mm.Sets[m.Name][*], mm.Sets[m.Name][tagsKey].Values[*]
